@@ -122,3 +122,66 @@ def ffi_jobs(rng, n):
     jobs.append({"id": len(jobs), "op": "eval", "term": app("bls12_381_FinalVerify", [app("bls12_381_MillerLoop", [g1, g2]), app("bls12_381_MillerLoop", [g1, g2])]), "lang": "v3", "pv": 11})
     jobs.append({"id": len(jobs), "op": "eval", "term": app("bls12_381_G1_MultiScalarMul", [["con", ["list", "integer"], ["1", "2", str(2**200)]], ["con", ["list", "g1"], [G.G1_GEN, G.G1_ZERO, G.G1_GEN]]]), "lang": "v3", "pv": 11})
     return jobs
+
+
+TSAN_TARGET = os.path.join(os.path.dirname(common.HARNESS), "target", "tsan")
+
+
+def tsan(chk, prop, jobs, threads=8, timeout=7200):
+    """ThreadSanitizer lane: the project driver rebuilt with `-Zsanitizer=thread -Zbuild-std`
+    (std, rayon and every dependency instrumented: no uninstrumented synchronisation) runs real
+    `Project::check` jobs with `threads` rayon workers. Each `WARNING: ThreadSanitizer` block in
+    the log is a report; reports are de-duplicated by the first frame inside the repository."""
+    import re
+
+    t0 = time.time()
+    env = dict(os.environ, CARGO_TARGET_DIR=TSAN_TARGET, RUSTFLAGS="-Zsanitizer=thread", CARGO_NET_OFFLINE="true")
+    b = subprocess.run(["cargo", "+nightly", "build", "-Zbuild-std", "--target", "x86_64-unknown-linux-gnu", "--release", "--offline", "--bin", "project-run"], cwd=common.HARNESS, env=env, capture_output=True, text=True, timeout=timeout)
+    binary = os.path.join(TSAN_TARGET, "x86_64-unknown-linux-gnu", "release", "project-run")
+    if b.returncode != 0 or not os.path.exists(binary):
+        chk.inconc("tsan-lane-unavailable")
+        chk.extra.setdefault("lanes", {})["tsan"] = {"ran": False, "stderr_tail": b.stderr[-600:]}
+        return
+    logdir = os.path.join(common.OUT, "tsan-logs")
+    shutil.rmtree(logdir, ignore_errors=True)
+    os.makedirs(logdir, exist_ok=True)
+    done = 0
+    reports = {}
+    for j in jobs:
+        # one process per project: its own rayon pool; halt_on_error=0 so that one report does not mask the rest
+        renv = dict(os.environ, RAYON_NUM_THREADS=str(threads), TSAN_OPTIONS=f"halt_on_error=0 exitcode=0 second_deadlock_stack=1 log_path={logdir}/p{j['id']}")
+        try:
+            p = subprocess.run([binary], input=json.dumps(j) + "\n", env=renv, capture_output=True, text=True, timeout=1800)
+        except subprocess.TimeoutExpired:
+            chk.inconc("tsan-watchdog")
+            continue
+        line = (p.stdout.strip().splitlines() or ["{}"])[-1]
+        try:
+            r = json.loads(line)
+        except ValueError:
+            r = {}
+        if p.returncode != 0 or "tests" not in json.dumps(r)[:2000] and "summary" not in r and "modules" not in r:
+            if p.returncode != 0:
+                chk.inconc(f"tsan-driver-exit-{p.returncode}")
+                continue
+        done += 1
+        chk.evaluations += 1
+        chk.distinct.add(f"tsan:{j.get('root')}")
+    for fn in sorted(os.listdir(logdir)):
+        text = open(os.path.join(logdir, fn), errors="replace").read()
+        for block in re.split(r"(?m)^(?===================)", text):
+            m = re.search(r"WARNING: ThreadSanitizer: ([^\n(]+)", block)
+            if not m:
+                continue
+            kind = m.group(1).strip()
+            frames = re.findall(r"#\d+ (\S+) (\S+?):(\d+)", block)
+            inrepo = next((f"{fn_}@{os.path.basename(path)}" for fn_, path, _ in frames if "/crates/" in path), None)
+            first = inrepo or (frames[0][0] if frames else "?")
+            key = f"{prop}|tsan|{kind}|{first}"
+            if key not in reports:
+                reports[key] = block[:4000]
+    for key, block in reports.items():
+        chk.violation(key, {"lane": "tsan", "threads": threads, "report": block})
+    chk.count("tsan_projects_checked", done)
+    chk.count("tsan_distinct_reports", len(reports))
+    chk.extra.setdefault("lanes", {})["tsan"] = {"ran": True, "projects": done, "threads": threads, "distinct_reports": len(reports), "wall_s": round(time.time() - t0, 1)}
